@@ -1,6 +1,6 @@
 (* Properties_C02.v — the theorems that decide property C02 on the model, each stated in full and closed by
    `exact <lemma>`; the lemmas live in the Proofs_*.v files.  Nothing else belongs in this file. *)
-From Theo Require Import Base Regex Tokens Errors Lexer Scan MacroExtract Grammar LR MacroApply Parser VMModel VMSpec VMCheck GenModel Compile Gen_Lexer Gen_Consts CompileStatements Proofs_Front Proofs_Gen LocErrStatements Proofs_LocErr.
+From Theo Require Import Base Regex Tokens Errors Lexer Scan MacroExtract Grammar LR MacroApply Parser VMModel VMSpec VMCheck GenModel Compile Gen_Lexer Gen_Consts CompileStatements Proofs_Front Proofs_Gen LocErrStatements Proofs_LocErr LRTermStatements SpecMacro ApplyStatements MacroStatements Proofs_LRTerm.
 Local Open Scope Z_scope.
 
 
@@ -80,3 +80,14 @@ Theorem C02_seen_files :
     (f <> standards_name /\ in_file files f l).
 Proof. exact C02_seen_files_proof. Qed.
 Print Assumptions C02_seen_files.
+
+Theorem C09_detect_no_fuel :
+  forall m d input, macro_ok m -> make_detector m = Ok d -> detect d input <> Fuel.
+Proof. exact C09_detect_no_fuel_proof. Qed.
+Print Assumptions C09_detect_no_fuel.
+
+Theorem C02_apply_fuel_only_tables :
+  forall input defs passes, eof_terminated input -> Forall macro_ok defs ->
+    apply_macros input defs passes = Fuel -> make_detectors defs = Fuel.
+Proof. exact C02_apply_fuel_only_tables_proof. Qed.
+Print Assumptions C02_apply_fuel_only_tables.
